@@ -105,6 +105,11 @@ def gen_shared_cases(rng, pairs):
 		if index % 3 == 0:
 			for what, key in bad_public_keys(rng, net):
 				cases.append({'kind': 'shared-bad-key', 'net': net, 'a': first.hex(), 'public': key.hex(), 'what': what})
+				if net == 'nem':
+					# the salted derivation of the deprecated message format takes the same public keys and refuses the same ones
+					cases.append({
+						'kind': 'shared-deprecated-bad-key', 'net': net, 'a': first.hex(), 'public': key.hex(), 'what': what,
+						'salt': rng.choice([bytes(32), rand_bytes(rng, 32)]).hex()})
 		if net == 'nem':
 			cases.append({'kind': 'shared-deprecated', 'net': net, 'a': first.hex(), 'b': second.hex(), 'salt': rand_bytes(rng, 32).hex()})
 	return cases
@@ -127,9 +132,13 @@ def derive(net, secret, public, salt=None):
 
 
 def impl_shared(case):
+	if case['kind'] == 'shared-session':
+		return impl_shared_session(case)
 	net, first = case['net'], bytes.fromhex(case['a'])
 	if case['kind'] == 'shared-bad-key':
 		return [derive(net, first, bytes.fromhex(case['public']))]
+	if case['kind'] == 'shared-deprecated-bad-key':
+		return [derive(net, first, bytes.fromhex(case['public']), bytes.fromhex(case['salt']))]
 	second = bytes.fromhex(case['b'])
 	pub_a, pub_b = key_pair_of(net, first).public_key.bytes, key_pair_of(net, second).public_key.bytes
 	salt = bytes.fromhex(case['salt']) if case['kind'] == 'shared-deprecated' else None
@@ -142,6 +151,13 @@ def model_shared(cases):
 		net = case['net']
 		if case['kind'] == 'shared-bad-key':
 			mine = [f'shared {net} {case["a"]} {case["public"]}']
+		elif case['kind'] == 'shared-deprecated-bad-key':
+			mine = [f'shareddep nem {case["a"]} {case["public"]} {case["salt"]}']
+		elif case['kind'] == 'shared-session':
+			mine = []
+			for step in case['steps']:
+				pub_a, pub_b = public_of(step['net'], bytes.fromhex(step['a'])).hex(), public_of(step['net'], bytes.fromhex(step['b'])).hex()
+				mine += [f'shared {step["net"]} {step["a"]} {pub_b}', f'shared {step["net"]} {step["b"]} {pub_a}']
 		else:
 			pub_a, pub_b = public_of(net, bytes.fromhex(case['a'])).hex(), public_of(net, bytes.fromhex(case['b'])).hex()
 			if case['kind'] == 'shared':
@@ -158,10 +174,13 @@ def oracle_shared(case, out):
 	net = case['net']
 	if any(value.startswith('crash') for value in out):
 		return f'shared key derivation raised {out}'
-	if case['kind'] == 'shared-bad-key':
+	if case['kind'] in ('shared-bad-key', 'shared-deprecated-bad-key'):
 		if case['what'] in ('non-canonical', 'outside-subgroup', 'not-on-curve'):
-			return None if out[0].startswith('reject') else f'a public key that is {case["what"]} is not refused: {out[0]}'
+			through = ' by the deprecated (salted) derivation' if case['kind'] == 'shared-deprecated-bad-key' else ''
+			return None if out[0].startswith('reject') else f'a public key that is {case["what"]} is not refused{through}: {out[0]}'
 		return None
+	if case['kind'] == 'shared-session':
+		return oracle_shared_session(case, out)
 	if out[0] != out[1]:
 		return f'the two directions give different keys: {out[0]} vs {out[1]}'
 	if case['kind'] == 'shared':
@@ -170,6 +189,68 @@ def oracle_shared(case, out):
 		expected = edmodel.hkdf_sha256(product, LABELS[net]).hex()
 		if out[0] != expected:
 			return f'shared key {out[0]} is not HKDF-SHA256(zero salt, {LABELS[net]!r}) of the encoded product ({expected})'
+	return None
+
+
+def gen_shared_sessions(rng, count):
+	"""ONE process derives on both networks, one after the other (both orders, the first network again at the end), with secrets whose
+	32 bytes are related across the networks: the same bytes, the byte-reversed ones (an account migrated from NEM: NEM hashes the
+	reversed key), palindromic ones, unrelated ones.  Per step: both directions, and a current-format message from a to b read by both."""
+	cases = []
+	relations = ['reversed', 'same', 'palindrome', 'reversed', 'unrelated']
+	for index in range(count):
+		relation = relations[index % len(relations)]
+		first, second = rand_bytes(rng, 32), rand_bytes(rng, 32)
+		if relation == 'palindrome':
+			first, second = first[:16] + first[:16][::-1], second[:16] + second[:16][::-1]
+		nets = ['sym', 'nem', 'sym'] if (index // len(relations) + index) % 2 == 0 else ['nem', 'sym', 'nem']
+		steps = []
+		for position, net in enumerate(nets[:2 + index % 2]):
+			if position % 2 == 0 or relation in ('same', 'palindrome'):
+				a, b = first, second
+			elif relation == 'reversed':
+				a, b = first[::-1], second[::-1]
+			else:
+				a, b = rand_bytes(rng, 32), rand_bytes(rng, 32)
+			steps.append({'net': net, 'a': a.hex(), 'b': b.hex()})
+		cases.append({'kind': 'shared-session', 'net': 'both', 'what': relation, 'steps': steps, 'plaintext': rand_bytes(rng, rng.choice([0, 5, 16, 40])).hex()})
+	return cases
+
+
+def impl_shared_session(case):
+	from symbolchain.CryptoTypes import PublicKey
+	out = []
+	plaintext = bytes.fromhex(case['plaintext'])
+	for step in case['steps']:
+		net, first, second = step['net'], bytes.fromhex(step['a']), bytes.fromhex(step['b'])
+		pub_a, pub_b = key_pair_of(net, first).public_key.bytes, key_pair_of(net, second).public_key.bytes
+		out += [derive(net, first, pub_b), derive(net, second, pub_a)]
+		try:
+			encoded = encoder_of(net, first).encode(PublicKey(pub_b), plaintext)
+			data = encoded if net == 'sym' else bytes(encoded.message)
+			out.append(impl_decode({'net': net, 'deprecated': False, 'secret': step['b'], 'public': pub_a.hex(), 'encoded': data}))
+			out.append(impl_decode({'net': net, 'deprecated': False, 'secret': step['a'], 'public': pub_b.hex(), 'encoded': data}))
+		except Exception as ex:  # pylint: disable=broad-except
+			out += [f'crash:{type(ex).__name__}'] * 2
+	return out
+
+
+def oracle_shared_session(case, out):
+	done = []
+	for number, step in enumerate(case['steps']):
+		net, first, second = step['net'], bytes.fromhex(step['a']), bytes.fromhex(step['b'])
+		forward, backward, recipient, sender = out[4 * number:4 * number + 4]
+		product = edmodel.r_shared_point(hasher_of(net), prepared(net, first), public_of(net, second))
+		expected = edmodel.hkdf_sha256(product, LABELS[net]).hex()
+		where = f'step {number + 1} ({net}, secrets {step["a"][:8]}.. / {step["b"][:8]}..) of one process' + (f' after {", ".join(done)}' if done else '')
+		if forward != backward:
+			return f'{where}: the two directions give different keys: {forward} vs {backward}'
+		if forward != expected:
+			return f'{where}: shared key {forward} is not HKDF-SHA256(zero salt, {LABELS[net]!r}) of the encoded product ({expected})'
+		for role, seen in (('recipient', recipient), ('sender', sender)):
+			if seen != f'ok:T:{case["plaintext"]}':
+				return f'{where}: the {role} does not recover the plaintext of a current-format message: {seen[:120]}'
+		done.append(f'deriving and exchanging a message on {net} with secrets {step["a"][:8]}.. / {step["b"][:8]}..')
 	return None
 
 
@@ -318,7 +399,13 @@ def impl_encode(case):
 			return MessageEncoder.encode_persistent_harvesting_delegation(
 				recipient_public, key_pair_of(net, plaintext[:32]), key_pair_of(net, plaintext[32:64]))
 		encoder = encoder_of(net, sender)
-		message = encoder.encode(recipient_public, plaintext) if fmt == 'current' else encoder.encode_deprecated(recipient_public, plaintext)
+		if case.get('nonce') and fmt == 'current':
+			from unittest import mock
+			from symbolchain.impl import CipherHelpers
+			with mock.patch.object(CipherHelpers, 'secrets', FixedDraws(bytes.fromhex(case['nonce']))):
+				message = encoder.encode(recipient_public, plaintext)
+		else:
+			message = encoder.encode(recipient_public, plaintext) if fmt == 'current' else encoder.encode_deprecated(recipient_public, plaintext)
 		assert message.message_type.value == 2
 		return bytes(message.message)
 
@@ -349,6 +436,48 @@ def gen_message_cases(rng, pairs):
 		cases.append({
 			'kind': 'message', 'net': 'sym', 'format': 'delegation', 'a': first.hex(), 'b': second.hex(), 'c': third.hex(),
 			'plaintext': rand_bytes(rng, 64).hex(), 'ephemeral': found[lead].hex()})
+	return cases
+
+
+class FixedDraws:
+	"""Stands in for the `secrets` module inside impl/CipherHelpers: the encoder draws exactly this nonce (any nonce is a legitimate draw)."""
+
+	def __init__(self, nonce):
+		self.nonce = nonce
+
+	def token_bytes(self, size):
+		import secrets
+		return self.nonce if size == len(self.nonce) else secrets.token_bytes(size)
+
+
+def gen_two_layout_cases(rng, count):
+	"""NEM messages in the CURRENT format (tag 16 | nonce 12 | ciphertext) that also have the shape of the DEPRECATED one (salt 32 | iv 16 |
+	whole AES blocks): plaintext length = 4 (mod 16) and >= 36.  Among the nonces the encoder may draw, one is searched (from a seeded
+	start, with the reference key derivations and cryptography's AES) for which the bytes, READ AS the deprecated layout, even carry valid
+	PKCS7 padding -- the only thing besides authentication that tells the two formats apart.  The encoder is then made to draw that nonce.
+	The message is an ordinary current-format message: recipient and sender must recover the plaintext."""
+	import sha3
+	cases = []
+	for _ in range(count):
+		first, second, third = rand_bytes(rng, 32), rand_bytes(rng, 32), rand_bytes(rng, 32)
+		plaintext = rand_bytes(rng, 36 + 16 * rng.choice([0, 0, 1, 1, 2, rng.randrange(3, 12)]))
+		point = edmodel.r_shared_point(edmodel.keccak512, first[::-1], public_of('nem', second))
+		key = edmodel.hkdf_sha256(point, LABELS['nem'])
+		nonce = None
+		for _ in range(6000):
+			candidate = rand_bytes(rng, 12)
+			ciphertext, tag = aes_gcm_seal(key, candidate, plaintext)
+			data = tag + candidate + ciphertext
+			legacy_key = sha3.keccak_256(bytes(x ^ y for x, y in zip(point, data[:32]))).digest()
+			if aes_cbc_open(legacy_key, data[32:48], data[48:]) is not None:
+				nonce = candidate
+				break
+		case = {
+			'kind': 'message', 'net': 'nem', 'format': 'current', 'a': first.hex(), 'b': second.hex(), 'c': third.hex(), 'plaintext': plaintext.hex(),
+			'round_trip_only': True}
+		if nonce is not None:
+			case['nonce'] = nonce.hex()
+		cases.append(case)
 	return cases
 
 
@@ -410,6 +539,8 @@ def run_messages(check, rng, cases, per_message):
 		if fmt != 'delegation':
 			job('sender', case['a'], pub['b'], encoded)
 		job('other-key', case['c'], pub['a'], encoded)
+		if case.get('round_trip_only'):
+			continue
 		for position, corrupted in corruptions(rng, case, encoded, per_message):
 			job('corrupted', case['b'], pub['a'], corrupted, position=position)
 		if fmt == 'delegation':
@@ -541,8 +672,10 @@ def run(check, unrecognised):
 		'random choices of the code (iv, salt, ephemeral key) are arguments of the model']
 	check.extra['rule'] = 'key pairs x plaintexts (0, 15, 16, 17, 1024 bytes and random sizes) x {Symbol, NEM} x formats (current, deprecated hex ' \
 		'wrapper / CBC, delegation); per message: recipient, sender, third key, single-byte corruptions spread over tag / iv / ciphertext, ' \
-		'truncations, re-framing; shared keys in both directions, refused public keys (non-canonical, outside the subgroup, off the curve), ' \
-		'deprecated NEM derivation. distinct = distinct (role, keys, encoded bytes)'
+		'truncations, re-framing; shared keys in both directions, refused public keys (non-canonical, outside the subgroup, off the curve; on NEM also ' \
+		'through the deprecated salted derivation), deprecated NEM derivation; one process deriving and exchanging messages on both networks in turn with the ' \
+		'same / byte-reversed / palindromic / unrelated secret bytes; NEM current-format messages of lengths 4 mod 16 (>= 36) whose nonce is chosen so ' \
+		'that the bytes also read as a deprecated-layout message with valid padding. distinct = distinct (role, keys, encoded bytes)'
 	for module in ('KeyPairOps', 'MessageOps'):
 		for anchor in unrecognised.get(module, []):
 			check.notes.append(f'anchor not recognised, pinned constants used: {anchor}')
@@ -558,7 +691,7 @@ def run(check, unrecognised):
 		edmodel.ensure_binary()
 	except edmodel.ModelUnavailable as ex:
 		check.obligation('executable-model-builds', False, str(ex)[-1500:])
-		for case in gen_shared_cases(rng, 20):
+		for case in gen_shared_cases(rng, 20) + gen_shared_sessions(rng, 10):
 			out = impl_shared(case)
 			check.case(f'{case["kind"]}:{case["net"]}', repr(sorted(case.items())))
 			problem = oracle_shared(case, out)
@@ -566,7 +699,7 @@ def run(check, unrecognised):
 				check.fail(signature_of(case), problem, {'case': case, 'observed': out, 'how': 'run.py replay <this file>'})
 		return
 
-	shared_cases = gen_shared_cases(rng, n_pairs)
+	shared_cases = gen_shared_cases(rng, n_pairs) + gen_shared_sessions(rng, 10 if quick else 200)
 	first = shared_cases[0]
 	cross = [
 		f'shared sym {first["a"]} {public_of("sym", bytes.fromhex(first["b"])).hex()}',
@@ -582,14 +715,15 @@ def run(check, unrecognised):
 		for case, out, model in zip(shared_cases, outs, models):
 			label = f'{case["kind"]}:{case["net"]}' + (f':{case["what"]}' if 'what' in case else '') + (':refused' if out[0].startswith('reject') else '')
 			check.case(label, repr(sorted(case.items())))
-			if out != model[:len(out)]:
+			derived = [value for position, value in enumerate(out) if position % 4 < 2] if case['kind'] == 'shared-session' else out
+			if derived != model[:len(derived)]:
 				check.disagree('EdZ+HKDF-model-vs-SharedKey.derive_shared_key', case, out, model)
 			if case['kind'] == 'shared' and (model[2] != public_of(case['net'], bytes.fromhex(case['a'])).hex()):
 				check.disagree('EdZ-public-key-vs-reference', case, public_of(case['net'], bytes.fromhex(case['a'])).hex(), model[2])
 			problem = oracle_shared(case, out)
 			if problem:
 				check.fail(signature_of(case), problem, {'case': case, 'observed': out, 'how': 'run.py replay <this file>'})
-		message_cases = gen_message_cases(rng, n_message_pairs)
+		message_cases = gen_message_cases(rng, n_message_pairs) + gen_two_layout_cases(rng, 6 if quick else 60)
 		run_messages(check, rng, message_cases, per_message)
 		check.extra['extraction_cross_checked_cases'] = pending.result()
 	for case, out in list(zip(shared_cases, outs))[:3]:
@@ -600,7 +734,7 @@ def run(check, unrecognised):
 
 def replay(data):
 	case = data['replay']['case']
-	if case['kind'] in ('shared', 'shared-bad-key', 'shared-deprecated'):
+	if case['kind'].startswith('shared'):
 		out = impl_shared(case)
 		problem = oracle_shared(case, out)
 	elif case['kind'] == 'decode':
